@@ -8,6 +8,7 @@ import InfluxQL.Lemmas.SelectPieces
 import InfluxQL.Lemmas.SelectClauses
 import InfluxQL.Lemmas.IntLit
 import InfluxQL.Lemmas.RegexRoundTrip
+import InfluxQL.Lemmas.AdminPieces
 import InfluxQL.Lemmas.NumberRoundTrip
 import InfluxQL.Props.C01
 import InfluxQL.Props.C08
@@ -2557,5 +2558,336 @@ theorem print_password_redacted (name p p' : Str) (admin : Bool) :
     (Statement.createUser name p admin).print = (Statement.createUser name p' admin).print ∧
     (Statement.setPasswordUser p name).print = (Statement.setPasswordUser p' name).print :=
   ⟨rfl, rfl⟩
+
+/-! ## administrative and SHOW statements, second round
+
+The families that were correspondence-only so far: CREATE DATABASE with its options, CREATE
+SUBSCRIPTION, SHOW TAG VALUES, SHOW MEASUREMENTS with `ON` / `WITH MEASUREMENT`, the cardinality
+statements. Pieces in `Lemmas/AdminPieces.lean` and `Lemmas/ShowPieces.lean`. -/
+
+/-! ### CREATE DATABASE … WITH options -/
+
+/-- ` FUTURE LIMIT <d>` / ` PAST LIMIT <d>` when the option is set and positive (the test of
+`CreateDatabaseStatement.String()`). -/
+def posLimitText (t : Token) (v : Option Int) : Str :=
+  match v with
+  | some v => if v > 0 then ' ' :: (t.str ++ ' ' :: (Token.LIMIT.str ++ ' ' :: formatDuration v)) else []
+  | none => []
+
+/-- ` NAME <rp>` when the name is not empty. -/
+def rpNameText (rp : Str) : Str := if rp ≠ [] then ' ' :: (Token.NAME.str ++ ' ' :: qi rp) else []
+
+theorem kwText_optDur (d : Option Int) : KwText (optDurText d) .DURATION := by
+  cases d
+  · exact Or.inl rfl
+  · exact Or.inr ⟨_, rfl⟩
+theorem kwText_optRepl (n : Option Nat) : KwText (optReplText n) .REPLICATION := by
+  cases n
+  · exact Or.inl rfl
+  · exact Or.inr ⟨_, rfl⟩
+theorem kwText_shard (sh : Int) : KwText (shardText sh) .SHARD := by
+  unfold shardText; split
+  · exact Or.inr ⟨_, rfl⟩
+  · exact Or.inl rfl
+theorem kwText_posLimit (t : Token) (v : Option Int) : KwText (posLimitText t v) t := by
+  cases v with
+  | none => exact Or.inl rfl
+  | some v =>
+    unfold posLimitText; dsimp only; split
+    · exact Or.inr ⟨_, rfl⟩
+    · exact Or.inl rfl
+theorem kwText_rpName (rp : Str) : KwText (rpNameText rp) .NAME := by
+  unfold rpNameText; split
+  · exact Or.inr ⟨_, rfl⟩
+  · exact Or.inl rfl
+
+/-- What CREATE DATABASE with a `WITH` clause prints after its keywords. -/
+def cdbText (name : Str) (d : Option Int) (n : Option Nat) (sh : Int) (fu pa : Option Int) (rp : Str) : Str :=
+  ' ' :: (qi name ++ ' ' :: (Token.WITH.str ++ (optDurText d ++ (optReplText n ++ (shardText sh ++
+    (posLimitText .FUTURE fu ++ (posLimitText .PAST pa ++ rpNameText rp)))))))
+
+theorem createDatabase_with_print (name : Str) (d : Option Int) (n : Option Nat) (sh : Int) (fu pa : Option Int)
+    (rp : Str) :
+    (Statement.createDatabase name true d (n.map Int.ofNat) rp sh fu pa).print =
+      tx "CREATE DATABASE" ++ cdbText name d n sh fu pa rp := by
+  have p1 : (Statement.createDatabase name true d (n.map Int.ofNat) rp sh fu pa).print =
+      tx "CREATE DATABASE " ++ qi name ++
+      (tx " WITH" ++ optDur " DURATION " d ++
+      (match n.map Int.ofNat with
+       | none => []
+       | some v => tx " REPLICATION " ++ intDigits v) ++
+      (if sh > 0 then tx " SHARD DURATION " ++ formatDuration sh else []) ++
+      (match fu with
+       | some v => if v > 0 then tx " FUTURE LIMIT " ++ formatDuration v else []
+       | none => []) ++
+      (match pa with
+       | some v => if v > 0 then tx " PAST LIMIT " ++ formatDuration v else []
+       | none => []) ++
+      (if rp ≠ [] then tx " NAME " ++ qi rp else [])) := rfl
+  have hd : ∀ v : Nat, intDigits (v : Int) = natDigits v := by intro v; unfold intDigits; simp
+  have e1 : tx "CREATE DATABASE " = tx "CREATE DATABASE" ++ [' '] := by decide +kernel
+  have e0 : tx " WITH" = ' ' :: Token.WITH.str := by decide +kernel
+  have e2 : tx " DURATION " = ' ' :: (Token.DURATION.str ++ [' ']) := by decide +kernel
+  have e3 : tx " REPLICATION " = ' ' :: (Token.REPLICATION.str ++ [' ']) := by decide +kernel
+  have e4 : tx " SHARD DURATION " = ' ' :: (Token.SHARD.str ++ ' ' :: (Token.DURATION.str ++ [' '])) := by
+    decide +kernel
+  have e5 : tx " NAME " = ' ' :: (Token.NAME.str ++ [' ']) := by decide +kernel
+  have e6 : tx " FUTURE LIMIT " = ' ' :: (Token.FUTURE.str ++ ' ' :: (Token.LIMIT.str ++ [' '])) := by decide +kernel
+  have e7 : tx " PAST LIMIT " = ' ' :: (Token.PAST.str ++ ' ' :: (Token.LIMIT.str ++ [' '])) := by decide +kernel
+  rw [p1, e0, e1, e3, e4, e5, e6, e7]
+  unfold cdbText
+  cases d <;> cases n <;> cases fu <;> cases pa <;>
+    simp only [optDur, optDurText, optReplText, shardText, posLimitText, rpNameText, e2, hd,
+      Option.map_some, Option.map_none, Int.ofNat_eq_natCast] <;>
+    (repeat' split) <;>
+    simp only [List.append_assoc, List.cons_append, List.nil_append, List.append_nil]
+
+section cdb
+variable (s : PState) (rest : Str)
+
+theorem cdb_dur (d : Option Int) (hd : DurOK d) (hs : s.Around (optDurText d ++ rest))
+    (hn : NextNot rest .DURATION) (hk : DurEnd rest) :
+    ∃ s', (optClause .DURATION parseDurationTok).run s = .ok (d, s') ∧ s'.Around rest := by
+  cases d with
+  | none => exact optClause_absent_around _ _ s rest hs hn
+  | some v =>
+    refine optClause_some .DURATION (by decide +kernel) _ s (formatDuration v) rest v
+      (by simpa only [optDurText, List.append_assoc, List.cons_append] using hs) ?_
+    intro s1 b1
+    exact parseDurationTok_piece s1 [' '] (formatDuration v) rest v (hd v rfl).1 (hd v rfl).2 Gap.blank b1.around
+      (scansAs_dur v (hd v rfl).1 rest hk)
+
+theorem cdb_repl (n : Option Nat) (hn : ∀ v, n = some v → 1 ≤ v ∧ (v : Int) ≤ maxInt32)
+    (hs : s.Around (optReplText n ++ rest)) (hnn : NextNot rest .REPLICATION) (hk : NumEnd rest) :
+    ∃ s', (optClause .REPLICATION (parseIntRange 1 maxInt32)).run s = .ok (n.map Int.ofNat, s') ∧ s'.Around rest := by
+  cases n with
+  | none => exact optClause_absent_around _ _ s rest hs hnn
+  | some v =>
+    refine optClause_some .REPLICATION (by decide +kernel) _ s (natDigits v) rest (v : Int)
+      (by simpa only [optReplText, List.append_assoc, List.cons_append] using hs) ?_
+    intro s1 b1
+    exact parseIntRange_piece s1 [' '] (natDigits v) rest 1 maxInt32 v (by have := (hn v rfl).1; omega)
+      (hn v rfl).2 (by have := (hn v rfl).2; unfold maxInt32 at this; unfold maxInt64; omega) Gap.blank b1.around
+      (scansAs_nat v rest hk)
+
+theorem cdb_shard (sh : Int) (h0 : 0 ≤ sh) (hm : sh ≤ maxInt64) (hs : s.Around (shardText sh ++ rest))
+    (hn : NextNot rest .SHARD) (hk : DurEnd rest) :
+    ∃ o s', (optClause .SHARD (do
+        expectTok .DURATION ["DURATION"]
+        parseDurationTok)).run s = .ok (o, s') ∧ o.getD 0 = sh ∧ s'.Around rest := by
+  unfold shardText at hs
+  by_cases hp : sh > 0
+  · rw [if_pos hp] at hs
+    obtain ⟨s', h, b⟩ := optClause_some .SHARD (by decide +kernel) (do
+        expectTok .DURATION ["DURATION"]
+        parseDurationTok) s (Token.DURATION.str ++ ' ' :: formatDuration sh) rest sh
+      (by simpa only [List.append_assoc, List.cons_append] using hs) (by
+        intro s1 b1
+        have b1' : s1.Before ([' '] ++ (Token.DURATION.str ++ (' ' :: (formatDuration sh ++ rest)))) := by
+          simpa only [List.append_assoc, List.cons_append, List.nil_append] using b1
+        obtain ⟨s2, h2, b2⟩ := expectTok_piece s1 [' '] Token.DURATION.str _ .DURATION [] ["DURATION"] Gap.blank
+          b1'.around (scansAs_kw .DURATION _ (by decide +kernel) (WordEnd.blank _))
+        obtain ⟨s3, h3, b3⟩ := parseDurationTok_piece s2 [' '] (formatDuration sh) rest sh h0 hm Gap.blank b2.around
+          (scansAs_dur sh h0 rest hk)
+        exact ⟨s3, by rw [P.run_bind _ _ s1 () s2 h2]; exact h3, b3⟩)
+    exact ⟨some sh, s', h, rfl, b⟩
+  · rw [if_neg hp] at hs
+    obtain ⟨s', h, b⟩ := optClause_absent_around .SHARD (do
+        expectTok .DURATION ["DURATION"]
+        parseDurationTok) s rest hs hn
+    exact ⟨none, s', h, by simp only [Option.getD_none]; omega, b⟩
+
+theorem cdb_limit (t : Token) (ht : t.isKw = true) (v : Option Int) (hv : DurOK v) (hz : v ≠ some 0)
+    (hs : s.Around (posLimitText t v ++ rest)) (hn : NextNot rest t) (hk : DurEnd rest) :
+    ∃ s', (optClause t parseWriteLimit).run s = .ok (v, s') ∧ s'.Around rest := by
+  cases v with
+  | none => exact optClause_absent_around _ _ s rest hs hn
+  | some v =>
+    have hp : v > 0 := by
+      have := (hv v rfl).1
+      have : v ≠ 0 := fun e => hz (by rw [e])
+      omega
+    refine optClause_some t ht _ s (Token.LIMIT.str ++ ' ' :: formatDuration v) rest v
+      (by simpa only [posLimitText, hp, if_true, List.append_assoc, List.cons_append] using hs) ?_
+    intro s1 b1
+    exact parseWriteLimit_piece s1 v rest (hv v rfl).1 (hv v rfl).2
+      (by simpa only [List.append_assoc, List.cons_append] using b1.around) hk
+
+theorem cdb_name (rp : Str) (hex : Expressible rp) (hs : s.Around (rpNameText rp ++ rest))
+    (hn : NextNot rest .NAME) (hk : IdentEnd rp rest) :
+    ∃ o s', (optClause .NAME parseIdent).run s = .ok (o, s') ∧ o.getD [] = rp ∧ s'.Around rest := by
+  unfold rpNameText at hs
+  by_cases hp : rp ≠ []
+  · rw [if_pos hp] at hs
+    obtain ⟨s', h, b⟩ := optClause_some .NAME (by decide +kernel) parseIdent s (qi rp) rest rp
+      (by simpa only [List.append_assoc, List.cons_append] using hs) (by
+        intro s1 b1
+        exact parseIdent_piece s1 [' '] (qi rp) rest rp Gap.blank b1.around (scansAs_ident rp rest hex hk))
+    exact ⟨some rp, s', h, rfl, b⟩
+  · rw [if_neg hp] at hs
+    obtain ⟨s', h, b⟩ := optClause_absent_around .NAME parseIdent s rest hs hn
+    exact ⟨none, s', h, by simpa using Eq.symm (by simpa using hp : rp = []), b⟩
+
+end cdb
+
+/-- The option keywords of `CREATE DATABASE … WITH`. -/
+def cdbKws : List Token := [.DURATION, .REPLICATION, .SHARD, .FUTURE, .PAST, .NAME]
+
+/-- **Print → parse, CREATE DATABASE name WITH …** (partial): every subset of the six options in the
+printer's order `DURATION`, `REPLICATION`, `SHARD DURATION`, `FUTURE LIMIT`, `PAST LIMIT`, `NAME`, all
+values in the ranges the parser guarantees (`ParseDuration` returns a non-negative `int64`, the
+replication factor is read by `ParseInt(1, MaxInt32)`). A retention duration of zero is printed
+(`DURATION 0s`) and read back; a shard duration of zero and an empty policy name print nothing and
+are read back as zero / empty.
+
+*Excluded* — exactly the region of the recorded open finding `zero-duration-option-not-printed`:
+a `FUTURE LIMIT` / `PAST LIMIT` of zero (`hfz`, `hpz`: stored as `&0`, not printed, read back as
+`nil`), and a statement none of whose options is printed (`hany`: `WITH SHARD DURATION 0s`, `WITH NAME ""` —
+the latter also an instance of `empty-identifier-not-printed`; the printed text ends with a lone
+`WITH`, which is rejected). Witness: `createDatabase_zero_option_counterexample`.
+`k` must not begin with a token that names an option. -/
+theorem createDatabase_with_print_parse_partial (fuel : Nat) (s : PState) (name : Str) (d : Option Int)
+    (n : Option Nat) (sh : Int) (fu pa : Option Int) (rp k : Str)
+    (hex1 : Expressible name) (hex2 : Expressible rp) (hd : DurOK d)
+    (hn : ∀ v, n = some v → 1 ≤ v ∧ (v : Int) ≤ maxInt32) (hsh : 0 ≤ sh ∧ sh ≤ maxInt64) (hfu : DurOK fu) (hpa : DurOK pa)
+    (hfz : fu ≠ some 0) (hpz : pa ≠ some 0)
+    (hany : d.isSome ∨ n.isSome ∨ sh > 0 ∨ fu.isSome ∨ pa.isSome ∨ rp ≠ []) (hk : TokEnd k) (hke : IdentEnd rp k)
+    (hstop : ∀ t ∈ cdbKws, NextNot k t)
+    (hs : s.Before (cdbText name d n sh fu pa rp ++ k)) :
+    ∃ s', (runHandler fuel .parseCreateDatabaseStatement).run s =
+        .ok (.createDatabase name true d (n.map Int.ofNat) rp sh fu pa, s') ∧ s'.Around k := by
+  have e : cdbText name d n sh fu pa rp ++ k = ' ' :: (qi name ++ ' ' :: (Token.WITH.str ++ (optDurText d ++
+      (optReplText n ++ (shardText sh ++ (posLimitText .FUTURE fu ++ (posLimitText .PAST pa ++
+        (rpNameText rp ++ k)))))))) := by
+    simp only [cdbText, List.append_assoc, List.cons_append]
+  rw [e] at hs
+  -- what may follow each optional clause
+  have k6 : TokEnd (rpNameText rp ++ k) := TokEnd.opt (kwText_rpName rp).optText hk
+  have k5 := TokEnd.opt (kwText_posLimit .PAST pa).optText k6
+  have k4 := TokEnd.opt (kwText_posLimit .FUTURE fu).optText k5
+  have k3 := TokEnd.opt (kwText_shard sh).optText k4
+  have k2 := TokEnd.opt (kwText_optRepl n).optText k3
+  have k1 := TokEnd.opt (kwText_optDur d).optText k2
+  -- the first token of each tail is none of the keywords before it
+  have m6 : ∀ t ∈ cdbKws, t ≠ .NAME → NextNot (rpNameText rp ++ k) t := fun t ht h =>
+    nextNot_kwText t (kwText_rpName rp) (by decide +kernel) (Ne.symm h) (hstop t ht)
+  have m5 : ∀ t ∈ cdbKws, t ≠ .NAME → t ≠ .PAST → NextNot (posLimitText .PAST pa ++ (rpNameText rp ++ k)) t :=
+    fun t ht h1 h2 => nextNot_kwText t (kwText_posLimit .PAST pa) (by decide +kernel) (Ne.symm h2) (m6 t ht h1)
+  have m4 : ∀ t ∈ cdbKws, t ≠ .NAME → t ≠ .PAST → t ≠ .FUTURE →
+      NextNot (posLimitText .FUTURE fu ++ (posLimitText .PAST pa ++ (rpNameText rp ++ k))) t :=
+    fun t ht h1 h2 h3 => nextNot_kwText t (kwText_posLimit .FUTURE fu) (by decide +kernel) (Ne.symm h3) (m5 t ht h1 h2)
+  have m3 : ∀ t ∈ cdbKws, t ≠ .NAME → t ≠ .PAST → t ≠ .FUTURE → t ≠ .SHARD →
+      NextNot (shardText sh ++ (posLimitText .FUTURE fu ++ (posLimitText .PAST pa ++ (rpNameText rp ++ k)))) t :=
+    fun t ht h1 h2 h3 h4 => nextNot_kwText t (kwText_shard sh) (by decide +kernel) (Ne.symm h4) (m4 t ht h1 h2 h3)
+  have m2 : ∀ t ∈ cdbKws, t ≠ .NAME → t ≠ .PAST → t ≠ .FUTURE → t ≠ .SHARD → t ≠ .REPLICATION →
+      NextNot (optReplText n ++ (shardText sh ++ (posLimitText .FUTURE fu ++ (posLimitText .PAST pa ++
+        (rpNameText rp ++ k))))) t :=
+    fun t ht h1 h2 h3 h4 h5 => nextNot_kwText t (kwText_optRepl n) (by decide +kernel) (Ne.symm h5) (m3 t ht h1 h2 h3 h4)
+  -- the probe after WITH sees an option keyword
+  have hfirst : FirstIn (optDurText d ++ (optReplText n ++ (shardText sh ++ (posLimitText .FUTURE fu ++
+      (posLimitText .PAST pa ++ (rpNameText rp ++ k)))))) cdbKws := by
+    refine firstIn_kwText (kwText_optDur d) (by decide +kernel) (by decide) (fun e1 => ?_)
+    refine firstIn_kwText (kwText_optRepl n) (by decide +kernel) (by decide) (fun e2 => ?_)
+    refine firstIn_kwText (kwText_shard sh) (by decide +kernel) (by decide) (fun e3 => ?_)
+    refine firstIn_kwText (kwText_posLimit .FUTURE fu) (by decide +kernel) (by decide) (fun e4 => ?_)
+    refine firstIn_kwText (kwText_posLimit .PAST pa) (by decide +kernel) (by decide) (fun e5 => ?_)
+    refine firstIn_kwText (kwText_rpName rp) (by decide +kernel) (by decide) (fun e6 => ?_)
+    exfalso
+    rcases hany with h | h | h | h | h | h
+    · cases d with
+      | none => cases h
+      | some v => cases e1
+    · cases n with
+      | none => cases h
+      | some v => cases e2
+    · rw [shardText, if_pos h] at e3; cases e3
+    · cases fu with
+      | none => cases h
+      | some v =>
+        have : v > 0 := by
+          have := (hfu v rfl).1
+          have : v ≠ 0 := fun e => hfz (by rw [e])
+          omega
+        simp only [posLimitText, this, if_true] at e4
+        cases e4
+    · cases pa with
+      | none => cases h
+      | some v =>
+        have : v > 0 := by
+          have := (hpa v rfl).1
+          have : v ≠ 0 := fun e => hpz (by rw [e])
+          omega
+        simp only [posLimitText, this, if_true] at e5
+        cases e5
+    · rw [rpNameText, if_pos h] at e6; cases e6
+  obtain ⟨s1, h1, b1⟩ := parseIdent_piece s [' '] (qi name) _ name Gap.blank hs.around
+    (scansAs_ident name _ hex1 (.of_wordEnd (WordEnd.blank _)))
+  obtain ⟨s2, h2, b2⟩ := optTok_piece s1 [' '] Token.WITH.str _ .WITH [] Gap.blank b1.around
+    (scansAs_kw .WITH _ (by decide +kernel) k1.1)
+  obtain ⟨lx, s3, h3, t3⟩ := hfirst s2 b2
+  have b3 : PState.Around { s3 with n := s3.n + 1 } (optDurText d ++ (optReplText n ++ (shardText sh ++
+      (posLimitText .FUTURE fu ++ (posLimitText .PAST pa ++ (rpNameText rp ++ k)))))) :=
+    ⟨s2, b2, Or.inr ⟨lx, s3, h3, rfl⟩⟩
+  obtain ⟨s4, h4, b4⟩ := cdb_dur _ _ d hd b3 (m2 _ (by decide) (by decide) (by decide) (by decide) (by decide) (by decide))
+    k2.2.2
+  obtain ⟨s5, h5, b5⟩ := cdb_repl s4 _ n hn b4 (m3 _ (by decide) (by decide) (by decide) (by decide) (by decide)) k3.2.1
+  obtain ⟨osh, s6, h6, esh, b6⟩ := cdb_shard s5 _ sh hsh.1 hsh.2 b5
+    (m4 _ (by decide) (by decide) (by decide) (by decide)) k4.2.2
+  obtain ⟨s7, h7, b7⟩ := cdb_limit s6 _ .FUTURE (by decide +kernel) fu hfu hfz b6
+    (m5 _ (by decide) (by decide) (by decide)) k5.2.2
+  obtain ⟨s8, h8, b8⟩ := cdb_limit s7 _ .PAST (by decide +kernel) pa hpa hpz b7 (m6 _ (by decide) (by decide)) k6.2.2
+  obtain ⟨orp, s9, h9, erp, b9⟩ := cdb_name s8 k rp hex2 b8 (hstop _ (by decide)) hke
+  refine ⟨s9, ?_, b9⟩
+  have hprobe : ¬ (lx.tok ≠ .DURATION ∧ lx.tok ≠ .NAME ∧ lx.tok ≠ .REPLICATION ∧ lx.tok ≠ .SHARD ∧ lx.tok ≠ .FUTURE ∧
+      lx.tok ≠ .PAST) := by
+    simp only [cdbKws, List.mem_cons, List.not_mem_nil, or_false] at t3
+    rcases t3 with h | h | h | h | h | h <;> simp [h]
+  simp only [runHandler, parseCreateDatabase]
+  rw [P.run_bind _ _ s name s1 h1, P.run_bind _ _ s1 true s2 h2]
+  simp only [if_true]
+  rw [P.run_bind _ _ s2 lx s3 h3]
+  simp only [hprobe, if_false]
+  rw [P.run_bind _ _ s3 () _ (unscan_run s3)]
+  rw [P.run_bind _ _ _ d s4 h4, P.run_bind _ _ s4 _ s5 h5, P.run_bind _ _ s5 osh s6 h6, P.run_bind _ _ s6 fu s7 h7,
+    P.run_bind _ _ s7 pa s8 h8, P.run_bind _ _ s8 orp s9 h9, esh, erp]
+  rfl
+
+/-- `CREATE DATABASE "my db" WITH DURATION 0s REPLICATION 2 FUTURE LIMIT 90m NAME "rp 1"`. -/
+example : ∃ s', (runHandler 10 .parseCreateDatabaseStatement).run
+    (PState.init (cdbText "my db".toList (some 0) (some 2) 0 (some 5400000000000) none "rp 1".toList) [] []) =
+      .ok (.createDatabase "my db".toList true (some 0) (some 2) "rp 1".toList 0 (some 5400000000000) none, s') := by
+  obtain ⟨s', h, _⟩ := createDatabase_with_print_parse_partial 10
+    (PState.init (cdbText "my db".toList (some 0) (some 2) 0 (some 5400000000000) none "rp 1".toList) [] [])
+    "my db".toList (some 0) (some 2) 0 (some 5400000000000) none "rp 1".toList [eofRune]
+    (by decide) (by decide) (by intro v h; cases h; decide) (by intro v h; cases h; decide) (by decide)
+    (by intro v h; cases h; decide) (by intro v h; cases h) (by decide) (by decide)
+    (Or.inl rfl) .eof (.of_wordEnd .eof) (stop_eof _ (by decide)) (init_before _ (by decide +kernel))
+  exact ⟨s', h⟩
+
+example : cdbText "my db".toList (some 0) (some 2) 0 (some 5400000000000) none "rp 1".toList =
+    " \"my db\" WITH DURATION 0s REPLICATION 2 FUTURE LIMIT 90m NAME \"rp 1\"".toList := by decide +kernel
+
+/-- Why the hypotheses of `createDatabase_with_print_parse_partial` are needed (the recorded finding
+`zero-duration-option-not-printed`): (1) `CREATE DATABASE d WITH SHARD DURATION 0s` is accepted, its
+statement prints as `CREATE DATABASE d WITH`, and that text is rejected; (2) `CREATE DATABASE d WITH
+DURATION 1h FUTURE LIMIT 0s` is accepted with `FutureWriteLimit = &0`, prints without the limit, and
+that text re-parses to a *different* statement (`FutureWriteLimit = nil`). -/
+theorem createDatabase_zero_option_counterexample :
+    ((match parseStatementText "CREATE DATABASE d WITH SHARD DURATION 0s".toList [] [] with
+     | .ok (.createDatabase n true none none [] 0 none none) => n == "d".toList
+     | _ => false) = true ∧
+    (Statement.createDatabase "d".toList true none none [] 0 none none).print = "CREATE DATABASE d WITH".toList ∧
+    (match parseStatementText "CREATE DATABASE d WITH".toList [] [] with
+     | .ok _ => false
+     | .error _ => true) = true) ∧
+    ((match parseStatementText "CREATE DATABASE d WITH DURATION 1h FUTURE LIMIT 0s".toList [] [] with
+     | .ok (.createDatabase n true (some 3600000000000) none [] 0 (some 0) none) => n == "d".toList
+     | _ => false) = true ∧
+    (Statement.createDatabase "d".toList true (some 3600000000000) none [] 0 (some 0) none).print =
+      "CREATE DATABASE d WITH DURATION 1h".toList ∧
+    (match parseStatementText "CREATE DATABASE d WITH DURATION 1h".toList [] [] with
+     | .ok (.createDatabase n true (some 3600000000000) none [] 0 none none) => n == "d".toList
+     | _ => false) = true) := by
+  refine ⟨⟨?_, ?_, ?_⟩, ⟨?_, ?_, ?_⟩⟩ <;> decide +kernel
 
 end InfluxQL.C02
